@@ -11,7 +11,7 @@ from ..model import call_many
 from ..pool import run_cases
 
 THEOREMS = ["C19_guard_sound", "C19_guard", "C19_guard_args", "C19_all_exact", "C19_symbols_defined",
-            "C19_reorder_keeps_everything", "C19_example"]
+            "C19_reorder_keeps_everything", "C19_example", "C19_sanitised_name_chars", "C19_sanitised_name_refuted"]
 
 EMITS = ["class", "function", "argparse", "json_schema", "pydantic", "sqlalchemy", "sqlalchemy_table", "sqlalchemy_hybrid"]
 # (valid identifiers that are soft keywords / builtins / lower case included: the symbol name and the __all__ entry are computed at two sites)
@@ -276,6 +276,13 @@ def run(ctx):
         for pr in r.get("problems", []):
             ctx.item(pr["cls"], {"stage": "observation of `python -m cdd gen`", "clause": pr["clause"],
                                  "input": {"case_seed": r["seed"], "opts": r["opts"], "argv": r.get("argv")}, "detail": pr})
+    # the name sanitiser itself against Model/Gen.v, on arbitrary strings (no non-ASCII digits: str.isdigit is modelled for ASCII)
+    IDENT = ["match", "case", "type", "class", "def", "None", "print", "_", "__", "a", "B", "x1", "1", "9lives", "-", ".", " ", "é", "ß", "名", "$", "cl-ass", "-1x", ""]
+    idents = ["".join(ctx.rng.choice(IDENT) for _ in range(ctx.rng.randint(0, 3))) for _ in range(400 if ctx.quick else 8000)] + IDENT
+    from cdd.shared.pure_utils import ensure_valid_identifier as _evi
+    for s_, m_ in zip(idents, call_many("ensure_valid_identifier", idents)):
+        if _evi(s_) != m_:
+            corr_bad.append({"input": s_, "impl": _evi(s_), "model": m_, "function": "ensure_valid_identifier"})
     if not ctx.violations:
         if not status["ok"]:
             ctx.violation({"stage": "proof", "theorem": status.get("failing_theorem"),
